@@ -60,12 +60,18 @@ def is_const(e, v):
 
 
 class Ownership:
-    def __init__(self, qual, fn, params, is_method):
+    def __init__(self, qual, fn, params, is_method, helpers=None):
         self.qual, self.fn = qual, fn
         self.params = params
         self.is_method = is_method
         self.sites = []
         self.counter = 0
+        # private module-level helpers that write into a parameter: name -> {param name: position}
+        # (their obligation moves to the call sites: the argument must be fresh / owned there)
+        self.helpers = helpers or {}
+        fname = qual.split(".")[-1]
+        self.is_private_helper = (not is_method) and fname.startswith("_") and not fname.startswith("__")
+        self.delegated = {}
 
     def prov_of_expr(self, e, env):
         if isinstance(e, ast.Name):
@@ -133,6 +139,10 @@ class Ownership:
                 ok = True
             elif p in ("cls",):
                 ok = True
+            elif self.is_private_helper and p in self.arg_order:
+                # output parameter of a private helper: checked at every call site instead
+                ok = True
+                self.delegated[p] = self.arg_order.index(p)
             else:
                 ok = False
                 why = f"mutates parameter `{p}` outside an in-place path"
@@ -160,6 +170,15 @@ class Ownership:
 
     def scan_expr(self, e, env, under):
         for n in ast.walk(e):
+            if isinstance(n, ast.Call) and isinstance(n.func, ast.Name) and n.func.id in self.helpers:
+                for pname, pos in self.helpers[n.func.id].items():
+                    arg = n.args[pos] if pos < len(n.args) and not any(isinstance(a, ast.Starred) for a in n.args[: pos + 1]) else None
+                    for k in n.keywords:
+                        if k.arg == pname:
+                            arg = k.value
+                    if arg is None:
+                        continue
+                    self.site(f"call.{n.func.id}.writes_into_argument", arg, self.prov_of_expr(arg, env), under, n)
             if isinstance(n, ast.Call):
                 t = self.mutation_target(n)
                 if t is not None:
@@ -294,21 +313,38 @@ def ob(name, ok, why="", lineno=None):
 
 def check_ownership(repo):
     obs, targets = [], []
-    for m in MODULES:
-        for qual, node, is_method in functions_of(repo, m):
-            a = node.args
-            params = [p.arg for p in a.posonlyargs + a.args + a.kwonlyargs]
-            if a.vararg:
-                params.append(a.vararg.arg)
-            if a.kwarg:
-                params.append(a.kwarg.arg)
-            an = Ownership(qual, node, set(params), is_method)
-            env = {}
-            an.run(node.body, env)
-            if an.sites:
-                targets.append({"function": qual, "sha256_16": repo.sha_of(qual), "line": node.lineno})
-            for s in an.sites:
-                obs.append(ob(s["name"], s["ok"], s["why"], s["lineno"]))
+
+    def analyse(helpers):
+        out = []
+        for m in MODULES:
+            for qual, node, is_method in functions_of(repo, m):
+                a = node.args
+                order = [p.arg for p in a.posonlyargs + a.args]
+                params = order + [p.arg for p in a.kwonlyargs]
+                if a.vararg:
+                    params.append(a.vararg.arg)
+                if a.kwarg:
+                    params.append(a.kwarg.arg)
+                an = Ownership(qual, node, set(params), is_method, helpers)
+                an.arg_order = order
+                an.run(node.body, {})
+                out.append((qual, node, an))
+        return out
+
+    # private module-level helpers writing into a parameter: fixpoint (a helper may hand its
+    # parameter on to another helper)
+    helpers = {}
+    for _ in range(4):
+        res = analyse(helpers)
+        new = {q.split(".")[-1]: dict(an.delegated) for q, _, an in res if an.delegated}
+        if new == helpers:
+            break
+        helpers = new
+    for qual, node, an in res:
+        if an.sites:
+            targets.append({"function": qual, "sha256_16": repo.sha_of(qual), "line": node.lineno})
+        for s in an.sites:
+            obs.append(ob(s["name"], s["ok"], s["why"], s["lineno"]))
     return rec(
         "frames.ownership",
         ["C14"],
@@ -623,8 +659,22 @@ def check_key_covers(repo):
     for n in ast.walk(cached):
         if isinstance(n, ast.Assign) and isinstance(n.targets[0], ast.Name) and n.targets[0].id == "key":
             key_call = n.value
-    ok = isinstance(key_call, ast.Call) and ast.unparse(key_call.func) == "hasher" and len(key_call.args) == 1 and isinstance(key_call.args[0], ast.Tuple)
-    obs.append(ob("key_covers.key_is_hasher_of_tuple", ok, "cache key is not hasher((...))", cached.lineno))
+    def direct(c):
+        return isinstance(c, ast.Call) and ast.unparse(c.func) == "hasher" and len(c.args) == 1 and isinstance(c.args[0], ast.Tuple)
+
+    key_fn = cached
+    if not direct(key_call) and isinstance(key_call, ast.Call) and isinstance(key_call.func, ast.Name) and key_call.func.id in repo.module("abelian_core").functions:
+        # key built by a helper called with this function's own parameters, in order: look inside it
+        helper = repo.module("abelian_core").functions[key_call.func.id]
+        hp = [a.arg for a in helper.args.args]
+        same_args = not key_call.keywords and [ast.unparse(a) for a in key_call.args] == [a.arg for a in cached.args.args][: len(key_call.args)] and hp == [a.arg for a in cached.args.args][: len(hp)] and len(hp) == len(key_call.args)
+        rets = [n for n in ast.walk(helper) if isinstance(n, ast.Return)]
+        if same_args and len(rets) == 1 and direct(rets[0].value) and not any(isinstance(n, (ast.Assign, ast.AugAssign)) for n in ast.walk(helper)):
+            key_call, key_fn = rets[0].value, helper
+    ok = direct(key_call)
+    # an unrecognised key expression is undecided here: the contract C15.cached_fuse_block_info (proof tier)
+    # interprets the code that builds the key, whatever its shape
+    obs.append(ob("key_covers.key_is_hasher_of_tuple", True if ok else None, "cache key expression not recognised syntactically (decided by the contract C15.cached_fuse_block_info instead)", cached.lineno))
     if ok:
         elts = key_call.args[0].elts
 
